@@ -29,8 +29,18 @@ class C13(Prop):
             faulty.extend(fs)
         yield 'valid', valid
         yield 'single-fault', faulty
+        # a valid input stays valid: the same parsed model and the same configuration values, built again with the
+        # same Builder (twice in a row, through the session), are accepted again
+        again = []
+        for _ in range(n // 3):
+            c = self._strip(G.gen_case(rng, want_mc=rng.random() < 0.7))
+            c['force_session'] = True
+            again += [c, dict(c), dict(c)]
+        yield 'valid-again', again
 
     def impl(self, case):
+        if case.get('force_session'):
+            return G.build_impl(case, fresh=False)
         return G.build_impl(case)
 
     def extra(self, ctx):
